@@ -810,7 +810,7 @@ pub fn gen_gz_fields(t: &mut Tape, big: bool) -> GzFields {
     f.xfl = t.pick(&[0u8, 2, 4, 0xff, 1]);
     f.os = t.pick(&[3u8, 0, 255, 11, 7]);
     let sizes: &[usize] = if big { &[0, 1, 2, 7, 100, 511, 512, 513, 1000, 5000, 65535] } else { &[0, 1, 2, 3, 7, 20, 100, 300] };
-    let mut fill = |t: &mut Tape, n: usize, nul_free: bool| -> Vec<u8> {
+    let fill = |t: &mut Tape, n: usize, nul_free: bool| -> Vec<u8> {
         let s = t.u8();
         (0..n).map(|i| { let b = (i as u8).wrapping_mul(31).wrapping_add(s); if nul_free && b == 0 { 1 } else { b } }).collect()
     };
